@@ -12,11 +12,11 @@ RULE = ("one evaluation = one history of 6-20 events over {message A->X, message
 ASSUMPTIONS = ["a reinstall is a fresh key store for the same phone number; the server double drops the old installation's one-time keys when the new identity is uploaded",
                "with automatic trust on the library resumes through the retry path: resumption is judged at quiescence, not on the first stanza",
                "histories are sampled"]
-REQUIRED = ["other_accounts_with_autotrust", "builder_assembled_histories", "busy_restarts", "histories", "checkpoints", "identity_changes_after_pin", "refusals_incoming", "refusals_outgoing", "autotrust_replacements",
+REQUIRED = ["broadcast_shaped_messages", "other_accounts_with_autotrust", "builder_assembled_histories", "busy_restarts", "histories", "checkpoints", "identity_changes_after_pin", "refusals_incoming", "refusals_outgoing", "autotrust_replacements",
             "restarts_between_pin_and_change", "autotrust:on", "autotrust:off", "group_messages"]
 TIMEOUT = {"quick": 600, "thorough": 7200}
 
-EVENTS = ["a>x", "a>x", "x>a", "x>a", "group-a", "group-x", "reinstall-x", "restart-a", "restart-a-busy", "restart-x", "b>x", "x>a-undecryptable"]
+EVENTS = ["a>x", "a>x", "x>a", "x>a", "group-a", "group-x", "reinstall-x", "restart-a", "restart-a-busy", "restart-x", "b>x", "x>a-undecryptable", "x>a-broadcast"]
 
 
 def one_history(acc, seed, tag):
@@ -29,6 +29,7 @@ def one_history(acc, seed, tag):
     three = r.random() < 0.6
     W = world.World(seed=r.randrange(1 << 30), strategy=r.choice(["uniform", "app-first", "app-last", "newest"]), batch=40)
     W.server.low_keys = 12
+    W.hang_seconds = 6
     W.server.notify_identity_change = r.random() < 0.5
     A, X, B = "4911" + gen.s_from(r, gen.DIGITS, 7), "4922" + gen.s_from(r, gen.DIGITS, 7), "4933" + gen.s_from(r, gen.DIGITS, 7)
     phones = [A, X] + ([B] if three else [])
@@ -61,9 +62,17 @@ def one_history(acc, seed, tag):
     acc.count("identity_notifications:" + ("on" if W.server.notify_identity_change else "off"))
     acc.count("autotrust:" + ("on" if autotrust else "off"))
 
+    class NoQuiescence(Exception):
+        pass
+
     def run_actions(actions):
         W.script = list(W.script[:W.script_pos]) + actions
-        return W.run(max_steps=W.steps + 30000)
+        if not W.run(max_steps=W.steps + 8000):
+            if any(e["type"] == "LibraryHang" for c in W.clients.values() for e in c.errors):
+                return True     # (reported at the checkpoint like any other exception)
+            # the accounts keep exchanging stanzas without end (a request/answer loop): nothing can be judged from here on
+            raise NoQuiescence()
+        return True
 
     def x_identity():
         return W.clients[X].manager().identity.getPublicKey()
@@ -86,9 +95,17 @@ def one_history(acc, seed, tag):
     first_seen = [None]
     sent = []                       # (uid marker, sender, target, identity index of X at send time, pinned index at send time)
 
-    def send(sender, target, undecryptable=False):
+    def send(sender, target, undecryptable=False, broadcast=False):
         uid[0] += 1
         mk = "MK%dX%s" % (uid[0], gen.s_from(r, gen.ALNUM, 6))
+        if broadcast:
+            # the server relays this message as one of a broadcast list / the status list: 'from' names the list, the sender is
+            # in 'participant'; it is still X's message, encrypted in X's session
+            mid = "C17B%d%s" % (uid[0], gen.s_from(r, gen.ALNUM, 5))
+            W.server.faults[mid] = {"as_broadcast": r.choice(["status@broadcast", "%s@broadcast" % gen.s_from(r, gen.DIGITS, 10)])}
+            acc.count("broadcast_shaped_messages")
+            sent.append({"mk": mk, "sender": sender, "target": target, "xid": len(ids) - 1, "pin": pin, "first_ok": None})
+            return {"op": "send", "who": sender, "kind": "text", "uid": mk, "build": lambda: TextMessageProtocolEntity(mk, message_meta_attributes=MessageMetaAttributes(id=mid, recipient=target))}
         if undecryptable:
             # every transmission of this message reaches the recipient damaged: it is never shown, but its envelope has
             # presented the sender's identity
@@ -109,6 +126,8 @@ def one_history(acc, seed, tag):
                 run_actions([send(A, "%s@s.whatsapp.net" % X)])
             elif ev == "x>a":
                 run_actions([send(X, "%s@s.whatsapp.net" % A)])
+            elif ev == "x>a-broadcast":
+                run_actions([send(X, "%s@s.whatsapp.net" % A, broadcast=True)])
             elif ev == "x>a-undecryptable":
                 run_actions([send(X, "%s@s.whatsapp.net" % A, undecryptable=True)])
             elif ev == "b>x":
@@ -207,6 +226,11 @@ def one_history(acc, seed, tag):
                         ok = bad("autotrust-no-resume:%s" % direction, "with automatic trust on, the last %s message after the identity change never arrived" % direction, (len(events), "end"))
                     elif cand:
                         acc.count("resumed_" + direction.replace(">", "_to_"))
+    except NoQuiescence:
+        acc.count("histories_without_quiescence")
+        acc.inconc("%s: the accounts never became quiet again (an endless exchange of stanzas) after events %s" % (tag, events[:12]))
+        W.close()
+        return
     except Exception:
         import traceback
         acc.inconc("%s: harness crashed: %s" % (tag, traceback.format_exc()[-800:]))
